@@ -44,7 +44,8 @@ decreasing_by omega
 /-- `_order_value(account, position, ins, cash_amount, style)`; `price` = limit price or last price (valid),
 `cost a` = estimated transaction cost of a BUY of `a` shares at `price` -/
 def orderValue (ins : SzIns) (cashAmount price acctCash : R) (closable posQty : Int) (cost : Int → R) : Option (Bool × Int) :=
-  let c := if cashAmount > 0 then R.pymin cashAmount acctCash else cashAmount
+  -- a BUY amount is capped by the available cash, which counts as 0 when it is negative (repaired: a negative cap used to turn the buy into a sell)
+  let c := if cashAmount > 0 then R.pymin cashAmount (R.pymax acctCash 0) else cashAmount
   let amount0 : Int := R.decQuot10 c price
   let loopLot : Int := if ins.isKSH then 1 else ins.lot
   if c > 0 then
